@@ -71,6 +71,7 @@ GENERAL_PDDL_KEYWORDS = {
     "not",
     "imply",
     "exists",
+    "assign",
     "scale-up",
     "scale-down",
     "increase",
